@@ -13,9 +13,11 @@ static SENTINEL: [u8; 1] = [0xA5];
 
 pub struct Three { a: [u8; 4], b: [u8; 4], c: [u8; 4], la: usize, lb: usize, lc: usize }
 
-pub fn any_three() -> Three {
+pub fn any_three() -> Three { any_three_upto(4) }
+
+pub fn any_three_upto(m: usize) -> Three {
     let t = Three { a: kani::any(), b: kani::any(), c: kani::any(), la: kani::any(), lb: kani::any(), lc: kani::any() };
-    kani::assume(t.la <= 4 && t.lb <= 4 && t.lc <= 4);
+    kani::assume(t.la <= m && t.lb <= m && t.lc <= m);
     t
 }
 
@@ -80,11 +82,8 @@ fn kx_vectored_chain3() {
     kani::cover!(n == 1 && t.la == 0 && t.lb > 0, "empty first half skipped");
 }
 
-// @ob props=C09,C12,C17 tier=quick kind=Kstruct bound="3 slices of 0..=4 bytes, dst of 0..=4 entries, any limit" fns=Take::chunks_vectored
-#[kani::proof]
-#[kani::unwind(18)]
-fn kx_vectored_take_chain3() {
-    let t = any_three();
+fn take_chain3(m: usize) {
+    let t = any_three_upto(m);
     let limit: usize = kani::any();
     let buf = take::new(Chain::new(Chain::new(&t.a[..t.la], &t.b[..t.lb]), &t.c[..t.lc]), limit);
     let mut dst = sentinels();
@@ -96,6 +95,16 @@ fn kx_vectored_take_chain3() {
     kani::cover!(n == 3 && limit < t.total(), "limit ends inside the third slice");
     kani::cover!(n == 2 && limit < t.la + t.lb && limit > t.la, "limit ends inside the second slice");
 }
+
+// @ob props=C09,C12,C17 tier=quick kind=Kstruct bound="3 slices of 0..=2 bytes, dst of 0..=4 entries, any limit; Take's scratch array of 16 is structural" fns=Take::chunks_vectored
+#[kani::proof]
+#[kani::unwind(18)]
+fn kx_vectored_take_chain3() { take_chain3(2); }
+
+// @ob props=C09,C12,C17 tier=thorough kind=Kstruct bound="3 slices of 0..=4 bytes, dst of 0..=4 entries, any limit" timeout=3000 fns=Take::chunks_vectored
+#[kani::proof]
+#[kani::unwind(18)]
+fn kx_vectored_take_chain3_len4() { take_chain3(4); }
 
 // @ob props=C09,C17 tier=quick kind=Kstruct bound="dst of 0..=4 entries" fns=Buf::chunks_vectored
 #[kani::proof]
